@@ -260,12 +260,21 @@ def _replay_gr(K, d, clause, model, seed, nspecies=None, via_getresults=False):
         rng.shuffle(types)
         ppp = np.array([int(rng.integers(0, 2)) for _ in range(d)]) if trial >= 2 else np.ones(d, dtype=int)
         rdelta = float(rng.choice([0.25, 0.4, 0.5]))
-        snaps = []
+        if trial == 3 or trial == 5:
+            T = max(T, 2)
+        snaps, Hs = [], []
         for s in range(T):
+            Hf = H.copy()
+            if trial in (3, 5) and s > 0:        # sheared trajectory: the tilt factors change from frame to frame, the box lengths do not
+                Hf[1, 0] = rng.uniform(-0.45, 0.45) * L[0]
+                if d == 3:
+                    Hf[2, 0] = rng.uniform(-0.3, 0.3) * L[0]
+                    Hf[2, 1] = rng.uniform(-0.3, 0.3) * L[1]
+            Hs.append(Hf)
             frac = rng.uniform(0, 1, size=(N, d))
-            pos = frac @ H
+            pos = frac @ Hf
             snaps.append(RUm.SingleSnapshot(timestep=s, nparticle=N, particle_type=types.copy(), positions=pos, boxlength=L.copy(),
-                                            boxbounds=np.column_stack([np.zeros(d), L]), realbounds=np.column_stack([np.zeros(d), L]), hmatrix=H.copy()))
+                                            boxbounds=np.column_stack([np.zeros(d), L]), realbounds=np.column_stack([np.zeros(d), L]), hmatrix=Hf.copy()))
         S = RUm.Snapshots(nsnapshots=T, snapshots=snaps)
         try:
             obj = G.gr(S, ppp=ppp, rdelta=rdelta)
@@ -276,7 +285,6 @@ def _replay_gr(K, d, clause, model, seed, nspecies=None, via_getresults=False):
         B = int(L.min() / 2.0 / rdelta)
         V = float(np.prod(L))
         edges = np.arange(B + 1) * rdelta
-        Hinv = np.linalg.inv(H)
         fac = 4.0 / 3 if d == 3 else 1.0
         shell = fac * np.pi * (edges[1:] ** d - edges[:-1] ** d)
         want_cols = ["r"] + [c for c, _ in columns(K)]
@@ -286,6 +294,7 @@ def _replay_gr(K, d, clause, model, seed, nspecies=None, via_getresults=False):
             cnt = np.zeros(B)
             for s in range(T):
                 pos = snaps[s].positions
+                Hf, Hinv = Hs[s], np.linalg.inv(Hs[s])       # the cell of THIS frame
                 for i in range(N):
                     for j in range(N):
                         if i == j:
@@ -294,7 +303,7 @@ def _replay_gr(K, d, clause, model, seed, nspecies=None, via_getresults=False):
                             continue
                         m = (pos[j] - pos[i]) @ Hinv
                         m = m - np.rint(m) * ppp
-                        r = np.linalg.norm(m @ H)
+                        r = np.linalg.norm(m @ Hf)
                         if r > B * rdelta:
                             continue
                         b = min(int(r / rdelta), B - 1) if r < B * rdelta else B - 1
@@ -309,7 +318,7 @@ def _replay_gr(K, d, clause, model, seed, nspecies=None, via_getresults=False):
             if not np.allclose(got, want, rtol=1e-9, atol=1e-12):
                 kbad = int(np.argmax(np.abs(got - want)))
                 return {"ran": True, "failed": True, "searched": tried,
-                        "inputs": {"K": K, "d": d, "N": N, "T": T, "types": types.tolist(), "hmatrix": H.tolist(), "ppp": ppp.tolist(), "rdelta": rdelta,
+                        "inputs": {"K": K, "d": d, "N": N, "T": T, "types": types.tolist(), "hmatrix_per_frame": [h.tolist() for h in Hs], "ppp": ppp.tolist(), "rdelta": rdelta,
                                    "positions": [sn.positions.tolist() for sn in snaps]},
                         "detail": f"column {name}, bin {kbad}: got {got[kbad]!r}, expected {want[kbad]!r} (ordered-pair histogram V/(N_a N_b) count/(T shell))"}
         if not np.allclose(res["r"].values, edges[1:] - rdelta / 2, rtol=1e-12):
